@@ -121,6 +121,9 @@ def _wrap_find(name, fn):
     return shim
 
 
+COMPOUND_CHECK = [True]
+
+
 def install(compound=False):
     global _installed
     if _installed:
@@ -142,6 +145,8 @@ def install(compound=False):
 
     def compound_call(self, point):
         result = orig_call(self, point)
+        if not COMPOUND_CHECK[0]:
+            return result  # switched off for very deep queries: the re-evaluation below doubles the work per level
         COUNTS["compound_call"] = COUNTS.get("compound_call", 0) + 1
         try:
             a = self.query1(point)
